@@ -321,7 +321,7 @@ class Runner:
             "exc": res["exc"] or "",
             "out": self.parse_out(op, res),
             "delta": [{"k": kd, "p": self.describe(p)} for kd, p in delta],
-            "writes": [{"k": e[0], "p": self.describe(e[1])} for e in res["writes"]],
+            "writes": [{"k": e[0], "p": self.describe(e[1]), "q": self.describe(e[2]) if len(e) > 2 else {"area": "", "h": [], "rest": ""}} for e in res["writes"]],
             "eff": [abstract_pattern(w, p) for p in eff],
             "ign": ign,
             "pre": pre,
